@@ -104,7 +104,9 @@ def run(ctx):
     ctx.add("C15.R2", "point_serialize~point_deserialize#same-base64-engine", same_engine,
             "encoder and decoder must use the same base64 engine; found %s / %s" % (_engine_id(ctx, e1[0]) if e1 else None, _engine_id(ctx, e2[0]) if e2 else None), at,
             sample={"encode": _engine_id(ctx, e1[0]) if e1 else None, "decode": _engine_id(ctx, e2[0]) if e2 else None})
-    ctx.add("C15.R2", rs + "#encodes-point-bytes", len(enc) == 1 and Q.params(Q.leaves(enc[0].args[1])) == {"p.0.0"},
+    ctx.add("C15.R2", rs + "#encodes-point-bytes", len(enc) == 1 and Q.params(Q.leaves(enc[0].args[1])) and
+            Q.params(Q.leaves(enc[0].args[1])) <= {"p", "p.0", "p.0.0"} and not Q.rngs(Q.leaves(enc[0].args[1])) and
+            not Q.contains(enc[0].args[1], lambda t: t.op in ("slice", "index", "owf")),
             "the serialiser must encode exactly the 32 compressed point bytes", ctx.fn(rs).loc)
     fs = Q.facts_of_variant(engd, retd, 0) or set()
     exact = any(t.op == "eq" and rel == "eq" and v == 1 and t.args[0].op == "len" and t.args[0].args[0].op == "b64dec" and
